@@ -12,9 +12,7 @@ Lemmas/TextCostJacoco.lean). The cost is accumulated also on the paths that end 
              C14-jacoco-attribute-duplicate-check-quadratic). What remains is linear:
              `get_xml_attribute` restarts the iteration for every attribute it is asked for
              (`class` → name, sourcefilename; `method` → name, line; `counter` → type, covered), so
-             an element costs at most (look-ups) × (its attributes), look-ups ≤ 2. The counters
-             below are upper bounds of what the code does (they do not stop at a repeated name);
-* `mapOps` – `BTreeMap`/`FxHashMap` insertions, an upper bound: 1 per `<line>`, 2 per `<method>`
+             an element costs at most (look-ups) × (its attributes), look-ups ≤ 2. * `mapOps` – `BTreeMap`/`FxHashMap` insertions, an upper bound: 1 per `<line>`, 2 per `<method>`
              (`functions.insert`, and at most one re-insertion by `functions.extend` when the file
              already has a record), 1 per `<class>`/`<sourcefile>` (`results_map.entry`);
 * `alloc`  – `Vec<bool>` slots of `vec![true; cb]` + `extend(vec![false; mb])`: cb + mb, whatever
@@ -45,27 +43,12 @@ def withCost {α : Type} (c : Cost) (p : α × Cost) : α × Cost := (p.1, c.add
 
 def tick : Cost := { reads := 1 }
 
-/-- cost of `get_xml_attribute(.., key)`: one pass over the attributes up to the first match -/
-def getAttrCost (key : Name) : List Attr → Cost
-  | [] => {}
-  | (k, _) :: rest =>
-    if k = key then { attrs := 1 } else ({ attrs := 1 } : Cost).add (getAttrCost key rest)
+/-- cost of `get_xml_attribute(.., key)`: the attributes the iterator yields up to the first match
+or iterator error (`Jacoco.getAttrWork`) -/
+def getAttrCost (key : Name) (a : List Attr) : Cost := { attrs := getAttrWork key a }
 
-/-- cost of the `for a in e.attributes()` loop of the `<line>` arm: every attribute up to the first
-value that does not parse -/
-def lineAttrsCost : List Attr → Cost
-  | [] => {}
-  | (k, v) :: rest =>
-    let c : Cost := { attrs := 1 }
-    if k = sCi ∨ k = sCb ∨ k = sMb then
-      match parseUnsigned U64MAX v with
-      | some _ => c.add (lineAttrsCost rest)
-      | none => c
-    else if k = sNr then
-      match parseUnsigned U32MAX v with
-      | some _ => c.add (lineAttrsCost rest)
-      | none => c
-    else c.add (lineAttrsCost rest)
+/-- cost of the `for a in e.attributes()` loop of the `<line>` arm (`Jacoco.lineAttrsWork`) -/
+def lineAttrsCost (a : List Attr) : Cost := { attrs := lineAttrsWork a }
 
 /-- what the `<line>` arm does after the attribute loop -/
 def commitCost (a : LineAcc) : Cost :=
@@ -171,15 +154,17 @@ def packageLoopC (cap : Nat) (package : Name) : Nat → List XmlEvent → List (
         | .ok fq =>
           let cls := afterLast cSlash fq
           let top := beforeFirst cDollar cls
-          let file := sourceFileOf a top
           withCost (getAttrCost sSourcefilename a) <|
-          let c := classLoopC cls fuel r []
-          withCost c.2 <|
-          (match c.1 with
-           | .ok (fns, r') => withCost { mapOps := 1 } (packageLoopC cap package fuel r' (addClass m file fns))
-           | .err k => (.err k, {})
-           | .alloc => (.alloc, {})
-           | .diverge => (.diverge, {}))
+          (match sourceFileOf a top with
+           | .ok file =>
+             let c := classLoopC cls fuel r []
+             withCost c.2 <|
+             (match c.1 with
+              | .ok (fns, r') => withCost { mapOps := 1 } (packageLoopC cap package fuel r' (addClass m file fns))
+              | .err k => (.err k, {})
+              | .alloc => (.alloc, {})
+              | .diverge => (.diverge, {}))
+           | .error k => (.err k, {}))
         | .error k => (.err k, {})
       else if localName n = sSourcefile then
         withCost (getAttrCost sName a) <|
